@@ -251,9 +251,9 @@ var (
 
 func vhFieldKind(t reflect.Type) int {
 	switch {
-	case t == vhTokenType:
+	case t == vhTokenType, t.Kind() == reflect.Ptr && t.Elem() == vhTokenType:
 		return fTok
-	case t == vhTokensType:
+	case t == vhTokensType, t.Kind() == reflect.Ptr && t.Elem() == vhTokensType:
 		return fToks
 	}
 	switch t.Kind() {
@@ -722,11 +722,23 @@ func vhActual(p *rprod, rv reflect.Value) *vnode {
 		case fBool:
 			out.b = fv.Bool()
 		case fTok:
+			if fv.Kind() == reflect.Ptr {
+				if fv.IsNil() {
+					break
+				}
+				fv = fv.Elem()
+			}
 			t := fv.Interface().(lexer.Token)
 			if t != (lexer.Token{}) {
 				out.tok = vhTokIndex(t)
 			}
 		case fToks:
+			if fv.Kind() == reflect.Ptr {
+				if fv.IsNil() {
+					break
+				}
+				fv = fv.Elem()
+			}
 			for _, t := range fv.Interface().([]lexer.Token) {
 				out.toks = append(out.toks, vhTokIndex(t))
 			}
